@@ -193,34 +193,49 @@ pub const LONG_MSG_LENS: [u32; 7] = [65_535, 65_536, 65_537, 131_072, 1 << 20, (
 /// What 16 threads get when their calls are the FIRST library calls of a fresh process, started together
 /// behind a barrier (lazily initialised statics, first-use races). One line per mismatch.
 pub fn cold_start_lines(seed: u64) -> Vec<String> {
-    use std::sync::{Arc, Barrier};
+    use std::sync::atomic::{AtomicUsize, Ordering};
+    use std::sync::Arc;
     let n = 16usize;
+    // per-process pattern: which parameter sets the threads use and what their very first call is
+    let pattern = seed % 4;
     // expectations first, from the reference only (no library call before the barrier)
-    let tuples: Vec<(usize, [u8; 32], Vec<u8>, [u8; 32], Mode)> = (0..n)
-        .map(|i| {
-            let s = crate::engine::hash_of(&(seed, "cold", i));
-            (i % 3, Seed32::Uniform(s).bytes(), gen::prg_bytes(s, "cold-msg", 1 + (s % 40) as usize), Seed32::Uniform(!s).bytes(), gen::mode_of((s >> 8) as u8))
+    // one tuple per parameter set in use (all threads of a set share it: one reference computation per set keeps
+    // the probe process short, so that many processes can be started)
+    let per_set: Vec<(usize, [u8; 32], Vec<u8>, [u8; 32], Mode)> = (0..3usize)
+        .map(|set| {
+            let s = crate::engine::hash_of(&(seed, "cold", set));
+            (set, Seed32::Uniform(s).bytes(), gen::prg_bytes(s, "cold-msg", 1 + (s % 40) as usize), Seed32::Uniform(!s).bytes(), gen::mode_of((s >> 8) as u8))
         })
         .collect();
-    let expect: Vec<(Vec<u8>, Vec<u8>, Vec<u8>)> = tuples
-        .iter()
-        .map(|(set, xi, m, rnd, mode)| {
-            let p = libs()[*set].p();
+    let set_of = |i: usize| if pattern % 2 == 0 { (seed / 4 % 3) as usize } else { i % 3 };
+    let mut expect_set: Vec<Option<(Vec<u8>, Vec<u8>, Vec<u8>)>> = vec![None; 3];
+    for i in 0..n {
+        let set = set_of(i);
+        if expect_set[set].is_none() {
+            let (_, xi, m, rnd, mode) = &per_set[set];
+            let p = libs()[set].p();
             let (pk, sk) = rf::keygen_internal(&p, xi);
             let (sig, _) = rf::sign(&p, &sk, m, &[], *mode, rnd, 100_000).expect("reference sign");
-            (pk, sk, sig)
-        })
-        .collect();
-    let barrier = Arc::new(Barrier::new(n));
+            expect_set[set] = Some((pk, sk, sig));
+        }
+    }
+    let tuples: Vec<(usize, [u8; 32], Vec<u8>, [u8; 32], Mode)> = (0..n).map(|i| per_set[set_of(i)].clone()).collect();
+    let expect: Vec<(Vec<u8>, Vec<u8>, Vec<u8>)> = (0..n).map(|i| expect_set[set_of(i)].clone().expect("computed")).collect();
+    // a spin barrier: all threads leave within a few nanoseconds of each other (a futex-based barrier wakes them one
+    // after the other, which hides short race windows)
+    let barrier = Arc::new(AtomicUsize::new(0));
     let handles: Vec<_> = (0..n)
         .map(|i| {
             let (b, t, e) = (barrier.clone(), tuples[i].clone(), expect[i].clone());
             std::thread::spawn(move || -> Vec<String> {
                 let lib = libs()[t.0];
                 let mut out = Vec::new();
-                let _ = b.wait();
-                // odd threads start with an import (so that some thread's FIRST call is a deserialisation)
-                if i % 2 == 1 {
+                let _ = b.fetch_add(1, Ordering::SeqCst);
+                while b.load(Ordering::SeqCst) < n {
+                    core::hint::spin_loop();
+                }
+                // patterns 2, 3: odd threads start with an import (their FIRST call is a deserialisation)
+                if pattern >= 2 && i % 2 == 1 {
                     let r = crate::engine::guarded(|| {
                         let a = lib.pk_from_bytes(&e.0).map(|k| k.to_bytes());
                         let b = lib.sk_from_bytes(&e.1).map(|k| k.to_bytes());
@@ -273,7 +288,7 @@ pub fn cold_start(ctx: &Ctx, rep: &mut Report, mine: &[&str]) {
         rep.note(format!("{sub}: cannot locate own executable; skipped"));
         return;
     };
-    let runs = ctx.n(24, 128);
+    let runs = ctx.n(400, 3000);
     for r in 0..runs {
         let seed = crate::engine::hash_of(&(ctx.seed, "cold-run", rep.prop.clone(), r));
         match std::process::Command::new(&exe).args(["coldstart", &seed.to_string()]).output() {
